@@ -261,7 +261,8 @@ Section AskSim.
     - split; intros [t [E _]]; discriminate.
   Qed.
 
-  Theorem ask_sim q : FM.in_view_validator q = true -> ans_eq (FM.ask FM.fixed A GA q) (FM.ask FM.fixed B GB q).
+  Theorem ask_sim q : FM.in_view_validator q || FM.in_view_executor q = true ->
+    ans_eq (FM.ask FM.fixed A GA q) (FM.ask FM.fixed B GB q).
   Proof.
     destruct q; intro Hq; try discriminate Hq; clear Hq; cbn [FM.ask].
     - (* QRoot *)
@@ -270,6 +271,9 @@ Section AskSim.
       pose proof (lk n) as H.
       destruct (FM.lookup A n) as [ta|], (FM.lookup B n) as [tb|]; try contradiction; try apply ans_eq_refl.
       destruct H as [_ [-> ->]]. reflexivity.
+    - (* QNamedE *)
+      pose proof (lk n) as H.
+      destruct (FM.lookup A n) as [ta|], (FM.lookup B n) as [tb|]; try contradiction; try apply ans_eq_refl.
     - (* QKind *)
       pose proof (lk t) as H.
       destruct (FM.lookup A t) as [ta|], (FM.lookup B t) as [tb|]; try contradiction; simpl; auto.
@@ -299,6 +303,22 @@ Section AskSim.
       + intro n. tauto.
       + intro n. apply impls_sim.
       + subst. intro n. tauto.
+    - (* QImpls *)
+      pose proof (lk t) as H.
+      destruct (FM.lookup A t) as [ta|], (FM.lookup B t) as [tb|]; try contradiction; simpl; try tauto.
+      destruct H as [H _].
+      destruct ta, tb; simpl in H; try contradiction; simpl; try tauto.
+      + intro n. apply impls_sim.
+      + subst. intro n. tauto.
+    - (* QApplies *)
+      pose proof (lk t) as H. pose proof (lk o) as Ho.
+      destruct (FM.lookup A t) as [ta|], (FM.lookup B t) as [tb|]; try contradiction; simpl; auto.
+      destruct H as [H _].
+      destruct ta, tb; simpl in H; try contradiction; simpl; auto.
+      + destruct (FM.lookup A o) as [oa|], (FM.lookup B o) as [ob|]; try contradiction; auto.
+        destruct Ho as [Ho _]. destruct oa, ob; simpl in Ho; try contradiction; auto.
+        destruct Ho as [_ ->]. reflexivity.
+      + subst. reflexivity.
     - (* QEnumValues *)
       pose proof (lk t) as H.
       destruct (FM.lookup A t) as [ta|], (FM.lookup B t) as [tb|]; try contradiction; simpl; auto.
@@ -533,7 +553,7 @@ Qed.
 
 (** ** the rebuilt definition answers every lookup of the validator like the erased original *)
 Theorem lookups_of_canon S F R G G' q :
-  canon R = canon (erase S F) -> FM.in_view_validator q = true ->
+  canon R = canon (erase S F) -> FM.in_view_validator q || FM.in_view_executor q = true ->
   ans_eq (FM.ask FM.fixed (to_feat R) G q) (FM.ask FM.fixed (to_feat (erase S F)) G' q).
 Proof.
   intros H Hq. apply ask_sim; auto.
@@ -552,10 +572,231 @@ Theorem rebuild_same_lookups S F r :
   builtins_consistent S = true -> kinds_ok S = true -> scalars_accept_all S = true -> defaults_denote S ->
   introspect (print_default S) S F = IntroOk r ->
   exists R, rebuild (map_defaults dflt_text r) = Some R /\
-    forall G G' q, FM.in_view_validator q = true ->
+    forall G G' q, FM.in_view_validator q || FM.in_view_executor q = true ->
       ans_eq (FM.ask FM.fixed (to_feat R) G q) (FM.ask FM.fixed (to_feat (erase S F)) G' q).
 Proof.
   intros H1 H2 H3 H4 H5 H6 H7 H8 H9 H10 Hr.
   destruct (rebuild_same_for_validation S F r H1 H2 H3 H4 H5 H6 H7 H8 H9 H10 Hr) as [R [HR HC]].
   exists R. split; [exact HR|]. intros G G' q Hq. apply lookups_of_canon; auto.
+Qed.
+
+(** ** the last link: C10's erased definition is C13's erased schema, up to [fsim] *)
+From ApiFu Require Feat.FeaturesProofs.
+Module FP := ApiFu.Feat.FeaturesProofs.
+
+(** the definition as schema.New registers it: only the types that belong to it *)
+Definition registered (S : schema) : schema :=
+  {| types := filter (fun t => mem (fst t) (members S)) (types S);
+     query := query S; mutation := mutation S; subscription := subscription S;
+     additional := additional S; directives := directives S |}.
+
+Lemma lookup_filter_key {X} (p : name -> bool) (l : list (name * X)) n :
+  lookup n (filter (fun t => p (fst t)) l) = if p n then lookup n l else None.
+Proof.
+  induction l as [|[k v] r IH]; simpl; [destruct (p n); reflexivity|].
+  destruct (p k) eqn:Ek; simpl.
+  - destruct (bytes_eqb n k) eqn:E.
+    + apply bytes_eqb_eq in E. subst. rewrite Ek. reflexivity.
+    + exact IH.
+  - destruct (bytes_eqb n k) eqn:E.
+    + apply bytes_eqb_eq in E. subst. rewrite Ek in *. exact IH.
+    + exact IH.
+Qed.
+
+Lemma lookup_filter_val {X} (p : name * X -> bool) (l : list (name * X)) n :
+  NoDup (map fst l) ->
+  lookup n (filter p l) = match lookup n l with Some v => if p (n, v) then Some v else None | None => None end.
+Proof.
+  induction l as [|[k v] r IH]; simpl; auto. intro Hnd. inversion Hnd as [|? ? Hni Hnd']; subst.
+  destruct (bytes_eqb n k) eqn:E.
+  - apply bytes_eqb_eq in E. subst k. destruct (p (n, v)) eqn:Ep; simpl.
+    + rewrite bytes_eqb_refl. reflexivity.
+    + rewrite (IH Hnd'). destruct (lookup n r) eqn:El; auto. exfalso. apply Hni. apply lookup_in in El.
+      apply in_map_iff. exists (n, x). auto.
+  - destruct (p (k, v)); simpl; [rewrite E|]; apply IH; auto.
+Qed.
+
+Lemma nodup_filter_keys {X} (p : name * X -> bool) (l : list (name * X)) : NoDup (map fst l) -> NoDup (map fst (filter p l)).
+Proof.
+  induction l as [|[k v] r IH]; simpl; auto. intro H. inversion H as [|? ? Hni Hnd]; subst.
+  destruct (p (k, v)); simpl; auto. constructor; auto. intro Hin. apply Hni.
+  apply in_map_iff in Hin as [[k' v'] [E Hin]]. simpl in E. subst. apply filter_In in Hin as [Hin _].
+  apply in_map_iff. exists (k, v'). auto.
+Qed.
+
+Lemma names_mapv {X Y} (f : X -> Y) l : map fst (mapv f l) = map fst l.
+Proof. unfold mapv. rewrite map_map. reflexivity. Qed.
+
+Lemma filter_mapv {X Y} (f : X -> Y) (p : name * Y -> bool) l :
+  filter p (mapv f l) = mapv f (filter (fun kv => p (fst kv, f (snd kv))) l).
+Proof. unfold mapv. induction l as [|[k v] r IH]; simpl; auto. destruct (p (k, f v)); simpl; rewrite IH; reflexivity. Qed.
+
+Section LastLink.
+  Variable S : schema.
+  Variable F : features.
+  Hypothesis Hnd : NoDup (map fst (types S)).
+  Hypothesis Hroots : roots_visible S F = true.
+
+  Let T := to_feat (registered S).
+  Let alive := FS.visible T F.
+
+  Lemma lookup_T n : FM.lookup T n = if mem n (members S) then option_map c_type (lookup n (types S)) else None.
+  Proof.
+    unfold T. rewrite lookup_to_feat. unfold registered; simpl.
+    rewrite (lookup_filter_key (fun k => mem k (members S))). destruct (mem n (members S)); reflexivity.
+  Qed.
+
+  Lemma alive_eq i : alive i = mem i (members S) && visible_type S F i.
+  Proof.
+    unfold alive, FS.visible. rewrite lookup_T. unfold visible_type.
+    destruct (mem i (members S)); simpl; auto.
+    destruct (lookup i (types S)) as [t|]; simpl; auto. rewrite req_c_type. reflexivity.
+  Qed.
+
+  (** what a registered type mentions and the request can see is registered *)
+  Lemma alive_mentioned n t i : In n (members S) -> lookup n (types S) = Some t -> In i (mentions t) ->
+    alive i = visible_type S F i.
+  Proof.
+    intros Hn Hl Hi. rewrite alive_eq. destruct (visible_type S F i) eqn:Ev; [|apply andb_false_r].
+    rewrite andb_true_r. apply mem_in. apply members_spec. apply (belongs_mention S n t i); auto.
+    - apply members_spec. exact Hn.
+    - unfold visible_type in Ev. unfold defined. destruct (lookup i (types S)); auto; discriminate.
+  Qed.
+
+  Lemma filter_ext_in' {X} (p q : X -> bool) l : (forall x, In x l -> p x = q x) -> filter p l = filter q l.
+  Proof. induction l as [|x r IH]; simpl; intro H; auto. rewrite H by auto. rewrite IH by auto. reflexivity. Qed.
+
+  Lemma erased_fields_eq fs :
+    mapv nfd (FS.erase_fields F (c_fields fs)) = mapv nfd (c_fields (visible_fields F fs)).
+  Proof.
+    unfold FS.erase_fields, c_fields, visible_fields.
+    induction fs as [|[k f] r IH]; simpl; auto.
+    change (FM.subset (f_features f) F) with (subset (f_features f) F).
+    destruct (subset (f_features f) F); simpl; [f_equal|]; exact IH.
+  Qed.
+
+  Lemma erased_type_eq n t : In n (members S) -> lookup n (types S) = Some t ->
+    type_eq (FS.erase_type alive F (c_type t)) (c_type (erase_type S F t)).
+  Proof.
+    intros Hn Hl. destruct t as [b a r d | vs r d | fs r rc d | fs ifs r d | fs r d | ms r d]; simpl.
+    - exact I.
+    - intro p. tauto.
+    - apply alist_eq_refl.
+    - split.
+      + apply alist_eq_of_eq. apply erased_fields_eq.
+      + apply filter_ext_in'. intros i Hi. apply (alive_mentioned n _ i Hn Hl). simpl. apply in_app_iff. auto.
+    - apply alist_eq_of_eq. apply erased_fields_eq.
+    - apply filter_ext_in'. intros i Hi. apply (alive_mentioned n _ i Hn Hl). exact Hi.
+  Qed.
+
+  Lemma lookup_generated (L : list name) n :
+    lookup n (flat_map (fun m => match lookup m (types S) with
+                                 | Some t => [(m, erase_type S F t)]
+                                 | None => []
+                                 end) L)
+    = if mem n L then option_map (erase_type S F) (lookup n (types S)) else None.
+  Proof.
+    unfold mem. induction L as [|m r IH]; simpl; auto.
+    destruct (bytes_eqb n m) eqn:E.
+    - apply bytes_eqb_eq in E. subst m. simpl. destruct (lookup n (types S)) as [t|] eqn:El; simpl.
+      + rewrite bytes_eqb_refl. reflexivity.
+      + rewrite IH. destruct (existsb (bytes_eqb n) r); reflexivity.
+    - simpl. destruct (lookup m (types S)); simpl; [rewrite E|]; exact IH.
+  Qed.
+
+  Lemma mem_listed n : mem n (listed S F) = mem n (members S) && visible_type S F n.
+  Proof.
+    destruct (mem n (listed S F)) eqn:E1.
+    - apply mem_in in E1. unfold listed in E1. apply in_sort in E1. apply filter_In in E1 as [H1 H2].
+      apply mem_in in H1. rewrite H1, H2. reflexivity.
+    - symmetry. apply andb_false_iff. destruct (mem n (members S)) eqn:E2; auto. right.
+      destruct (visible_type S F n) eqn:E3; auto. exfalso.
+      apply mem_false in E1. apply E1. unfold listed. apply in_sort. apply filter_In. split; auto. apply mem_in. exact E2.
+  Qed.
+
+  Lemma nodup_T : NoDup (map fst (FM.types T)).
+  Proof. unfold T. rewrite names_to_feat. unfold registered; simpl. apply nodup_filter_keys. exact Hnd. Qed.
+
+  Lemma lookup_erased_T n :
+    FM.lookup (FS.erase T F) n =
+    match FM.lookup T n with
+    | Some t => if FM.subset (FM.type_req t) F then Some (FS.erase_type alive F t) else None
+    | None => None
+    end.
+  Proof.
+    unfold FM.lookup at 1. unfold FS.erase; simpl. rewrite assoc_lookup.
+    change (map (fun nt => (fst nt, FS.erase_type (FS.visible T F) F (snd nt))))
+      with (@mapv FM.named_type FM.named_type (FS.erase_type (FS.visible T F) F)).
+    rewrite lookup_mapv. rewrite (lookup_filter_val (fun nt => FM.subset (FM.type_req (snd nt)) F)) by apply nodup_T.
+    unfold FM.lookup. rewrite (assoc_lookup n (FM.types T)).
+    change (FM.types T) with (c_types (filter (fun t : name * named_type => mem (fst t) (members S)) (types S))).
+    match goal with |- context [lookup n ?l] => destruct (lookup n l) as [t|] end; simpl; auto.
+    destruct (FM.subset (FM.type_req t) F); reflexivity.
+  Qed.
+
+  Lemma root_alive m : In m (opt_list (mutation S) ++ opt_list (subscription S)) -> alive m = true.
+  Proof.
+    intro Hm. unfold roots_visible in Hroots. apply andb_true_iff in Hroots as [H _]. apply andb_true_iff in H as [_ H].
+    rewrite forallb_forall in H. specialize (H m Hm). rewrite alive_eq, H, andb_true_r.
+    apply mem_in. apply members_spec. apply belongs_entry.
+    - unfold entry_points. simpl. right. rewrite !in_app_iff. apply in_app_iff in Hm. tauto.
+    - unfold visible_type in H. unfold defined. destruct (lookup m (types S)); auto; discriminate.
+  Qed.
+
+  Theorem erase_fsim : fsim (FS.erase T F) (to_feat (erase S F)).
+  Proof.
+    constructor.
+    - unfold FS.erase; simpl. rewrite map_map. simpl.
+      change (map (fun x : FM.name * FM.named_type => fst x)) with (@map (FM.name * FM.named_type) FM.name fst).
+      apply nodup_filter_keys. apply nodup_T.
+    - rewrite names_to_feat. apply nodup_names_erase.
+    - intro n. rewrite lookup_erased_T, lookup_T, lookup_to_feat.
+      unfold erase; simpl. rewrite lookup_generated, mem_listed. unfold visible_type.
+      destruct (mem n (members S)) eqn:Em; simpl; auto.
+      destruct (lookup n (types S)) as [t|] eqn:El; simpl; auto.
+      rewrite req_c_type. change (FM.subset (nt_req t) F) with (subset (nt_req t) F).
+      destruct (subset (nt_req t) F); simpl; auto.
+      apply (erased_type_eq n t); auto. apply mem_in. exact Em.
+    - reflexivity.
+    - unfold FS.erase; simpl. destruct (mutation S) as [m|] eqn:E; simpl; auto.
+      fold alive. rewrite root_alive; auto. rewrite E. simpl. auto.
+    - unfold FS.erase; simpl. destruct (subscription S) as [m|] eqn:E; simpl; auto.
+      fold alive. rewrite root_alive; auto. rewrite E. apply in_app_iff. right. simpl. auto.
+    - apply alist_eq_refl.
+  Qed.
+
+  Lemma erased_all_visible : all_visible (FS.erase T F) F.
+  Proof.
+    intros n t Hin. unfold FS.erase in Hin; simpl in Hin. apply in_map_iff in Hin as [[n' t0] [E Hin]].
+    simpl in E. inversion E; subst. apply filter_In in Hin as [_ Hreq]. simpl in Hreq. split.
+    - destruct t0; exact Hreq.
+    - intros nf Hnf. destruct t0; simpl in Hnf; try contradiction; unfold FS.erase_fields in Hnf;
+        apply filter_In in Hnf as [_ H]; exact H.
+  Qed.
+End LastLink.
+
+(** ** the theorem: the rebuilt definition answers every lookup of the validator's view like the
+    original does for the request *)
+Theorem rebuild_same_lookups_full S F r :
+  depth_ok S = true -> interfaces_declared_once S = true -> locations_known S = true ->
+  refs_defined S = true -> gating_nested S = true -> roots_visible S F = true ->
+  builtins_consistent S = true -> kinds_ok S = true -> scalars_accept_all S = true -> defaults_denote S ->
+  NoDup (map fst (types S)) -> FM.schema_ok (to_feat (registered S)) = true ->
+  introspect (print_default S) S F = IntroOk r ->
+  exists R, rebuild (map_defaults dflt_text r) = Some R /\
+    forall G q, FM.in_view_validator q || FM.in_view_executor q = true ->
+      (forall h, In h (FM.handle_args q) -> FS.visible (to_feat (registered S)) F h = true) ->
+      ans_eq (FM.ask FM.fixed (to_feat R) G q) (FM.ask FM.fixed (to_feat (registered S)) F q).
+Proof.
+  intros H1 H2 H3 H4 H5 H6 H7 H8 H9 H10 Hnd Hok Hr.
+  destruct (rebuild_same_for_validation S F r H1 H2 H3 H4 H5 H6 H7 H8 H9 H10 Hr) as [R [HR HC]].
+  exists R. split; [exact HR|]. intros G q Hq Hh.
+  rewrite (FP.view_erase_eq (to_feat (registered S)) F F q Hok (FP.subset_refl F) Hh).
+  apply ask_sim; auto.
+  - eapply fsim_trans.
+    + apply fsim_of_canon; [| apply nodup_names_erase | exact HC].
+      apply (nodup_names_canon R (erase S F) HC). apply nodup_names_erase.
+    + apply fsim_sym. apply erase_fsim; auto.
+  - apply all_visible_reqfree. apply (reqfree_canon R (erase S F) HC). apply reqfree_erase.
+  - apply erased_all_visible.
 Qed.
